@@ -57,6 +57,9 @@ def main():
     ap.add_argument("prop")
     ap.add_argument("--skip-tests", action="store_true")
     ap.add_argument("--needs", default="")
+    ap.add_argument("--benign", action="store_true",
+                    help="behaviour-preserving change: the demonstration "
+                         "passes with and without it, the checks must too")
     a = ap.parse_args()
     wt = a.worktree
     env = dict(os.environ, PYTHONPATH=wt)
@@ -89,7 +92,11 @@ def main():
                             "result": last[-1] if last else outt[-300:]})
     else:
         rct = None
-    ok = (rc1 != 0 and rc0 == 0 and (rct in (0, None)))
+    if a.benign:
+        ok = (rc1 == 0 and rc0 == 0 and (rct in (0, None)))
+        meta["benign"] = True
+    else:
+        ok = (rc1 != 0 and rc0 == 0 and (rct in (0, None)))
     meta["confirmed"] = bool(ok)
     dst = os.path.join(VERIF, "seeded", a.id)
     os.makedirs(dst, exist_ok=True)
@@ -102,7 +109,12 @@ def main():
     # 4. our check against it
     res = run_check_against(os.path.join(dst, "patch.diff"), a.prop, [])
     meta["check_quick"] = res
-    if res.get("exit") == 0:
+    if a.benign:
+        res2 = run_check_against(os.path.join(dst, "patch.diff"), a.prop,
+                                 ["--runs", "8000", "--budget", "300"])
+        meta["check_longer"] = res2
+        meta["false_alarm"] = (res.get("exit") != 0 or res2.get("exit") != 0)
+    elif res.get("exit") == 0:
         res2 = run_check_against(os.path.join(dst, "patch.diff"), a.prop,
                                  ["--runs", "12000", "--budget", "400"])
         meta["check_longer"] = res2
@@ -110,8 +122,9 @@ def main():
                         meta.get("check_longer", {}).get("exit") == 1)
     with open(os.path.join(dst, "meta.json"), "w") as f:
         json.dump(meta, f, indent=1)
-    print(json.dumps({k: meta[k] for k in ("id", "property", "confirmed",
-                                           "detected", "check_quick")},
+    print(json.dumps({k: meta.get(k) for k in ("id", "property", "confirmed",
+                                               "detected", "false_alarm",
+                                               "check_quick")},
                      indent=1)[:1500])
     if "check_longer" in meta:
         print("longer:", json.dumps(meta["check_longer"])[:600])
